@@ -1632,6 +1632,12 @@ func ExistExpr(query *Query, current Map, expr *sqlparser.ExistsExpr, opts ...Ex
 		}
 		// a column of the nested row hides an outer column of the same name
 		merged := maps.Clone(current)
+		// ... and inside the subquery the name of its table means the table
+		// being scanned (orders.amount FROM orders), not the outer row's
+		// column that holds it
+		if len(q.alias) == 0 && len(q.table) > 0 {
+			delete(merged, strings.SplitN(q.table, ".", 2)[0])
+		}
 		for key, value := range item {
 			merged[key] = value
 		}
